@@ -254,12 +254,12 @@ fn reissue_probe_sym(v6: bool) {
 
 #[kani::proof]
 #[kani::unwind(3)]
-fn c07_reissue_probe_sym_v4() {
+fn t07_reissue_probe_sym_v4() {
     reissue_probe_sym(false);
 }
 #[kani::proof]
 #[kani::unwind(3)]
-fn c07_reissue_probe_sym_v6() {
+fn t07_reissue_probe_sym_v6() {
     reissue_probe_sym(true);
 }
 
@@ -1473,9 +1473,10 @@ next_probe_slot_harness!(t07_next_probe_slot_255_255, 255, 255, true);
 next_probe_slot_harness!(t07_next_probe_slot_256_256, 256, 256, false);
 next_probe_slot_harness!(t07_next_probe_slot_63999_510, 63999, 510, false);
 next_probe_slot_harness!(t07_next_probe_slot_65021_2, 65021, 2, true);
-reissue_probe_slot_harness!(t07_reissue_probe_slot_1_2, 1, 2, true);
-reissue_probe_slot_harness!(t07_reissue_probe_slot_64511_255, 64511, 255, false);
-reissue_probe_slot_harness!(t07_reissue_probe_slot_65022_256, 65022, 256, false);
+reissue_probe_slot_harness!(c07_reissue_probe_slot_1_2, 1, 2, true);
+reissue_probe_slot_harness!(c07_reissue_probe_slot_64511_255, 64511, 255, false);
+reissue_probe_slot_harness!(c07_reissue_probe_slot_65022_256, 65022, 256, false);
+reissue_probe_slot_harness!(c07_reissue_probe_slot_255_255, 255, 255, true);
 send_step_harness!(t06_send_step_icmp_65022_0, 65022, 0, 0, false);
 send_step_harness!(t06_send_step_icmp_1_253, 1, 253, 0, true);
 send_step_harness!(t06_send_step_udp_0_1, 0, 1, 1, false);
